@@ -634,3 +634,107 @@ func boundaryPackets(e ExpPDR) []model.Pkt {
 	add(func(p *model.Pkt) { p.Proto++ })
 	return out
 }
+
+// EntriesOf returns the pdrLookup entries attributed to (fseid, pdr id).
+func EntriesOf(snap rig.Snapshot, fseid uint64, id uint16) []rig.WEntry {
+	var out []rig.WEntry
+	for _, e := range snap.PDR {
+		if e.Fseid() == fseid && e.PdrID() == uint64(id) {
+			out = append(out, e)
+		}
+	}
+	return out
+}
+
+func maskLen(m uint64) (int, bool) {
+	mm := uint32(m)
+	l := 0
+	for l < 32 && mm&(1<<uint(31-l)) != 0 {
+		l++
+	}
+	if mm != model.MaskOf(l) {
+		return 0, false
+	}
+	return l, true
+}
+
+func spanOf(bs *[1024]uint64) (lo, hi uint32, contiguous bool, empty bool) {
+	first, last, n := -1, -1, 0
+	for p := 0; p < 65536; p++ {
+		if bs[p>>6]&(1<<(uint(p)&63)) != 0 {
+			if first < 0 {
+				first = p
+			}
+			last = p
+			n++
+		}
+	}
+	if first < 0 {
+		return 0, 0, false, true
+	}
+	return uint32(first), uint32(last), n == last-first+1, false
+}
+
+// ObservedFilter decodes the packet filter that a PDR's entries denote (set semantics on ports).
+func ObservedFilter(es []rig.WEntry) (model.PktFilter, error) {
+	var pf model.PktFilter
+	if len(es) == 0 {
+		return pf, fmt.Errorf("no entries")
+	}
+	e0 := es[0]
+	for _, e := range es[1:] {
+		for _, i := range []int{0, 1, 2, 3, 4, 7} {
+			if e.Masks[i] != e0.Masks[i] || e.Values[i]&e.Masks[i] != e0.Values[i]&e0.Masks[i] {
+				return pf, fmt.Errorf("entries of one PDR differ in field %d", i)
+			}
+		}
+	}
+	var ok bool
+	if pf.SrcLen, ok = maskLen(e0.Masks[3]); !ok {
+		return pf, fmt.Errorf("source mask %#x is not a prefix mask", e0.Masks[3])
+	}
+	if pf.DstLen, ok = maskLen(e0.Masks[4]); !ok {
+		return pf, fmt.Errorf("destination mask %#x is not a prefix mask", e0.Masks[4])
+	}
+	pf.SrcNet = uint32(e0.Values[3]) & model.MaskOf(pf.SrcLen)
+	pf.DstNet = uint32(e0.Values[4]) & model.MaskOf(pf.DstLen)
+	switch e0.Masks[7] {
+	case 0:
+		pf.ProtoAny = true
+	case 0xff:
+		pf.Proto = uint8(e0.Values[7])
+	default:
+		return pf, fmt.Errorf("protocol mask %#x", e0.Masks[7])
+	}
+	var su, du [1024]uint64
+	for _, e := range es {
+		s, d := portSet(e.Values[5], e.Masks[5]), portSet(e.Values[6], e.Masks[6])
+		for i := range su {
+			su[i] |= s[i]
+			du[i] |= d[i]
+		}
+	}
+	slo, shi, sc, se := spanOf(&su)
+	dlo, dhi, dc, de := spanOf(&du)
+	if se || de || !sc || !dc {
+		return pf, fmt.Errorf("port sets are not contiguous ranges")
+	}
+	pf.SrcLo, pf.SrcHi, pf.DstLo, pf.DstHi = uint16(slo), uint16(shi), uint16(dlo), uint16(dhi)
+	if err := checkPorts(es, pf.SrcLo, pf.SrcHi, pf.DstLo, pf.DstHi); err != nil {
+		return pf, err
+	}
+	return pf, nil
+}
+
+// SameFilter compares two packet filters by what they match.
+func SameFilter(a, b model.PktFilter) bool {
+	norm := func(f model.PktFilter) model.PktFilter {
+		f.SrcNet &= model.MaskOf(f.SrcLen)
+		f.DstNet &= model.MaskOf(f.DstLen)
+		if f.ProtoAny {
+			f.Proto = 0
+		}
+		return f
+	}
+	return norm(a) == norm(b)
+}
